@@ -473,6 +473,26 @@ func runC18(c C18Case) (v *Violation, st map[string]bool) {
 				}
 				outs = append(outs, e)
 			}
+			// IteratePrefix over the parent yields exactly the parent's keys that start with the prefix
+			pit, err := dbm.IteratePrefix(b.parent, b.full)
+			if err != nil {
+				return viol("iterateprefix", "IteratePrefix(%x): %v", b.full, err), st
+			}
+			var pgot []string
+			for ; pit.Valid(); pit.Next() {
+				pgot = append(pgot, string(pit.Key()))
+			}
+			perr := pit.Error()
+			_ = pit.Close()
+			var pwant []string
+			for _, e := range dumpKVs(b.parent) {
+				if bytes.HasPrefix(e.K, b.full) {
+					pwant = append(pwant, string(e.K))
+				}
+			}
+			if perr != nil || fmt.Sprintf("%x", pgot) != fmt.Sprintf("%x", pwant) {
+				return viol("iterateprefix", "after %s: %s: IteratePrefix(%x) = %x (%v) want %x", what, b.name, b.full, pgot, perr, pwant), st
+			}
 			if !eqKVs(outs, b.outside) {
 				return viol("isolation", "after %s: %s: keys outside the namespace %x changed: %s (were %s)", what, b.name, b.full, fmtKVs(outs), fmtKVs(b.outside)), st
 			}
